@@ -14,6 +14,7 @@ BOOL_VALS = ["1", "0", "1", "0", "1", "0"]
 LONG_VALS = ["0L", "7L", "-9L", "2147483647L", "-5L", "100000L"]
 STR_VALS = ['""', '"a"', '"ab  "', '"hello world"', '"  x"', '"Z"']
 ENUM_VALS = ["1", "5", "1", "5", "5", "1"]       # Color RED = 1, BLUE = 5
+VEC_VALS = ["3", "-4", "0", "7", "99", "1"]
 
 
 def P(kind, name, **kw):
@@ -101,6 +102,19 @@ ROWS = {
     "out_n": dict(yaml="int {n}", cxx="int {n}", ty="int", intent="in",
                   lib_in="vt_int({n});", acc="acc += {n};",
                   c_decl="int {n} = {v};", c_arg="{n}", c_in="vt_int({n});", vals=["4", "0", "1", "3", "2", "4"]),
+    # std::vector (docs/types.rst "std::vector"): Fortran only -- the C API of a vector argument is its bufferify form
+    "vec_in": dict(yaml="const std::vector<int> &{n}", cxx="const std::vector<int> &{n}", ty="arri", intent="in",
+                   lib_in="vt_arr_int({n}.data(), (long){n}.size());",
+                   acc="for (size_t i_ = 0; i_ < {n}.size(); i_++) acc += {w} * (long)({n}[i_] % 100);", vals=VEC_VALS),
+    "vec_inout": dict(yaml="std::vector<int> &{n}", cxx="std::vector<int> &{n}", ty="arri", intent="inout",
+                      lib_in="vt_arr_int({n}.data(), (long){n}.size());",
+                      acc="for (size_t i_ = 0; i_ < {n}.size(); i_++) acc += {w} * (long)({n}[i_] % 100);",
+                      lib_set="for (size_t i_ = 0; i_ < {n}.size(); i_++) {n}[i_] = ({n}[i_] % 100) * 2 + {w};",
+                      lib_out="vt_arr_int({n}.data(), (long){n}.size());", vals=VEC_VALS),
+    "vec_out_alloc": dict(yaml="std::vector<int> &{n} +intent(out)+deref(allocatable)", cxx="std::vector<int> &{n}", ty="arri",
+                          intent="out",
+                          lib_set="{n}.assign((size_t)(acc % 4), 0); for (size_t i_ = 0; i_ < {n}.size(); i_++) {n}[i_] = (int)(acc % 50) + (int)i_ + {w};",
+                          lib_out="vt_arr_int({n}.data(), (long){n}.size());", vals=VEC_VALS),
     "cls_p": dict(yaml="Cls *{n}", cxx="Cls *{n}", ty="obj", intent="in",
                   lib_in="vt_obj({n});", acc="acc += {w} * (long)({n}->value % 100);",
                   c_decl="", c_arg="&{obj}", c_in="vt_obj({obj}.addr);", vals=["1"] * 6, needs_obj=True),
@@ -127,6 +141,10 @@ RESULTS = {
                      lib_out="vt_str(rv.c_str(), (long)rv.size());", c_decl="const char *rv;", c_out="vt_str(rv, -1);"),
     "pt": dict(yaml="Pt", cxx="Pt", ty="pt", lib_make="Pt rv; rv.x = (int)(acc % 1000); rv.y = 0.25 * (double)(acc % 7);",
                lib_out="{ int t_[2] = { rv.x, (int)(rv.y * 4) }; vt_arr_int(t_, 2); }", c_decl="{PT} rv;", c_out="{ int t_[2] = { rv.x, (int)(rv.y * 4) }; vt_arr_int(t_, 2); }"),
+    # pointer result with a declared extent (docs/pointers.rst): a Fortran pointer to the library's memory
+    "iptr3": dict(yaml="int *", attrs=" +dimension(3)", cxx="int *", ty="arri",
+                  lib_make="static int arr_[3]; arr_[0] = (int)(acc % 100); arr_[1] = arr_[0] + 1; arr_[2] = -arr_[0]; int *rv = arr_;",
+                  lib_out="vt_arr_int(rv, 3);", c_decl="int *rv;", c_out="vt_arr_int(rv, 3);"),
 }
 
 
@@ -208,6 +226,13 @@ FROWS = {
     "pt_v": dict(decl="type(pt) :: {n}", set="{n} = pt({v}, 1.5_C_DOUBLE)", arg="{n}", fin=FPT, vk="int"),
     "pt_pinout": dict(decl="type(pt) :: {n}", set="{n} = pt({v}, 2.5_C_DOUBLE)", arg="{n}", fin=FPT, fout=FPT, vk="int"),
     "pt_cref": dict(decl="type(pt) :: {n}", set="{n} = pt({v}, -0.5_C_DOUBLE)", arg="{n}", fin=FPT, vk="int"),
+    # std::vector: {sz} is the extent the caller passes (4, 0, 1, 3 in turn)
+    "vec_in": dict(decl="integer(C_INT) :: {n}(4)", set="{n} = [1, {v}, -2, 8]", arg="{n}(1:{sz})",
+                   fin="call vt_arr_int({n}(1:{sz}), {sz}_C_LONG)", vk="int"),
+    "vec_inout": dict(decl="integer(C_INT) :: {n}(4)", set="{n} = [1, {v}, -2, 8]", arg="{n}(1:{sz})",
+                      fin="call vt_arr_int({n}(1:{sz}), {sz}_C_LONG)", fout="call vt_arr_int({n}(1:{sz}), {sz}_C_LONG)", vk="int"),
+    "vec_out_alloc": dict(decl="integer(C_INT), allocatable :: {n}(:)", set="continue", arg="{n}",
+                          fout="call vt_arr_int({n}, size({n}, kind=C_LONG))", vk="int"),
 }
 
 FRESULTS = {
@@ -219,13 +244,23 @@ FRESULTS = {
     "cstr": dict(decl="character(len=:), allocatable :: rv", fout="call vt_str(rv, len(rv, kind=C_LONG))"),
     "str_cref": dict(decl="character(len=:), allocatable :: rv", fout="call vt_str(rv, len(rv, kind=C_LONG))"),
     "pt": dict(decl="type(pt) :: rv", fout="call vt_arr_int([rv%x, int(rv%y * 4, C_INT)], 2_C_LONG)"),
+    "iptr3": dict(decl="integer(C_INT), pointer :: rv(:)", fout="call vt_arr_int(rv, size(rv, kind=C_LONG))", ptr=True),
 }
 
 
+def vector_cases():
+    """Fortran-only cases: std::vector arguments and a pointer result with a declared extent."""
+    return [F("v1", "int", [P("vec_in", "v"), P("int_v", "k")]),
+            F("v2", "void", [P("vec_inout", "v")]),
+            F("v3", "int", [P("int_v", "k"), P("vec_out_alloc", "v")]),
+            F("v4", "iptr3", [P("int_v", "k")]),
+            F("v5", "double", [P("vec_in", "a"), P("vec_inout", "b"), P("vec_out_alloc", "c")])]
+
+
 def fortran_cases():
-    """The cases whose every row has a documented Fortran form in FROWS (struct rows are C only for now)."""
+    """The cases whose every row has a documented Fortran form in FROWS."""
     out = []
-    for c in base_cases():
+    for c in base_cases() + vector_cases():
         ok = all((p["kind"] in FROWS or p["kind"] == "T_v") for p in c["params"]) and (c["result"] in FRESULTS or c["result"] == "T")
         if ok:
             out.append(c)
